@@ -321,6 +321,12 @@ def c03(ctx: Ctx) -> None:
     cap_ = (qc_.args[0] if qc_.args else next((k.value for k in qc_.keywords if k.arg == 'maxsize'), None)) if isinstance(qc_, ast.Call) else None
     unb_ = cap_ is None or (isinstance(cap_, ast.Constant) and isinstance(cap_.value, (int, float)) and cap_.value <= 0) or (
         isinstance(cap_, ast.UnaryOp) and isinstance(cap_.op, ast.USub) and isinstance(cap_.operand, ast.Constant))
+    lk_ = r.kinds.get('loop')
+    if lk_ is not None:
+        ctx.check('C03-S8', f'the owning loop self.loop = {norm(lk_[1])}', f'{FILE}:{getattr(lk_[1], "lineno", r.init.lineno)}',
+                  lk_[0] in ('asyncio.get_event_loop', 'asyncio.get_running_loop'), 'the loop current where the buffer is created: the one that runs the daemon',
+                  'the buffer binds itself to a loop other than the current one (a fresh loop nobody runs): hand-offs are scheduled on it and the '
+                  'daemon lives on it, so nothing submitted is ever delivered', construct=construct_key('BUFFER.__init__', 'owning loop', lk_[0]))
     ctx.check('C03-S8', f'the hand-off queue self.{r.q} = {norm(qc_)} is unbounded', f'{FILE}:{getattr(qc_, "lineno", r.init.lineno)}', unb_,
               'a put that cannot wait never finds it full', 'the queue is bounded while submissions are handed over with put_nowait from a loop callback: '
               'when the daemon falls behind, QueueFull is raised inside the callback and the argument is lost',
@@ -625,6 +631,15 @@ def c03(ctx: Ctx) -> None:
                   f'{FILE}:{ep.lineno}', ok, 'exactly one hand-off with the right adaptor',
                   'an entry point does not enqueue its argument (exactly once, through its adaptor)', witness=render(ge, w),
                   construct=construct_key(ep.qualname, 'entry point'))
+        # ... and what is handed over is the caller's argument itself: an entry point that re-binds it (`_args = tuple(_args)` to take
+        # a "snapshot") iterates the source in the submitting thread, outside the loader's guard - a source that fails half way
+        # raises into the submitter and the elements it had produced are never delivered
+        if argp is not None:
+            rb_ = [n for n in ge.nodes if n.kind == 'store_name' and n.meta['name'] == argp and not n.meta.get('inlined_param') and not n.meta.get('inlined')]
+            ctx.check('C03-S7', f'{ep.name}: the argument `{argp}` is handed over as it was given ({len(rb_)} re-binding(s))', ge.loc(rb_[0]) if rb_ else f'{FILE}:{ep.lineno}',
+                      not rb_, 'production happens in the loader, under its guard', f'`{argp}` is replaced by something computed from it in the entry point: the '
+                      'source is consumed (or transformed) in the submitter\'s thread, before the loader that keeps a failing producer\'s prefix sees it',
+                      construct=construct_key(ep.qualname, 'argument re-bound'))
         # S8: the queue is touched only as the callback of loop.call_soon_threadsafe
         ts = [n for n in puts if n.ast.func.attr == 'call_soon_threadsafe' and rpath(ge, n, n.ast.func.value) == 'self.loop']
         bad_touch = list(direct) + [n for n in puts if n not in ts]
@@ -1067,6 +1082,8 @@ def c08(ctx: Ctx) -> None:
     ctx.rule('C08-D3', 'the function runs only after a freshly armed quiet timer expired (or was cancelled), once per expiry; the timer wraps queue.get() in wait_for(_, self.timeout)', 4)
     ctx.rule('C08-D4', 'drain precedes arming, everything drained is gathered before the timer is awaited, a successful timed get returns to the loop head', 3)
     where = f'{FILE}:{r.root.lineno}'
+    from .common import rule_func_attr_is_param
+    rule_func_attr_is_param(ctx, 'C08-D1', r.init, 'func', 'wrapped function')
     # D1: distinct call sites (by AST identity) of self.func anywhere in the class
     sites = {}
     for f in p.all_functions():
